@@ -17,4 +17,10 @@ Example C09_example :
   = RErr ErrGroupExists.
 Proof. vm_compute. repeat split; reflexivity. Qed.
 
+(** Monitor soundness: the extracted monitor for C09 (all three clauses) never rejects a stream of the model. *)
+From TP Require PMonSound9_C09 PObs PMon.
+Theorem mon_sound : forall c tr, clean (run c tr) -> PMon.ok_C09 c (PObs.observe c tr) = true.
+Proof. exact PMonSound9_C09.mon_C09_sound. Qed.
+
 Print Assumptions C09.
+Print Assumptions mon_sound.
